@@ -74,7 +74,7 @@ Lemma rstep_covers planned layout st o st' res b :
   rstep planned layout st o = Some (st', res) ->
   covers b (all_ranges st) -> covers b (all_ranges st').
 Proof.
-  unfold all_ranges. destruct o as [pn|pn|probe ping before popped after asp r0]; cbn [rstep]; intros H Hc.
+  unfold all_ranges. destruct o as [pn|pn|probe ping before popped after asp r0|before popped after asp cnt r0]; cbn [rstep]; intros H Hc.
   - destruct (take_pkt pn (rOut st)) as [[fs out']|] eqn:E; inversion H; subst; clear H; [|exact Hc].
     cbn [rOut rQueue rAcked]. rewrite !covers_app in *. rewrite (covers_take b _ _ _ _ E) in Hc. tauto.
   - destruct (take_pkt pn (rOut st)) as [[fs out']|] eqn:E; inversion H; subst; clear H; [|exact Hc].
@@ -88,18 +88,38 @@ Proof.
       * rewrite !covers_app in *. tauto.
     + inversion H; subst; clear H. cbn [rOut rQueue rAcked].
       rewrite flat_map_app. cbn [flat_map snd]. rewrite app_nil_r. rewrite !covers_app in *. tauto.
+  - destruct (pop_check (rQueue st) popped) as [q'|] eqn:E; [|discriminate].
+    pose proof (pop_check_covers _ _ _ E b) as Hp.
+    assert (Hnil : ~ covers b []) by (intros [r [Hin _]]; destruct Hin).
+    destruct popped as [|p ps]; inversion H; subst; clear H; cbn [rOut rQueue rAcked].
+    + rewrite !covers_app in *. tauto.
+    + rewrite flat_map_app. cbn [flat_map snd]. rewrite app_nil_r. rewrite !covers_app in *. tauto.
 Qed.
 
 (** C02_initial_retx_never_errors: no step ends in an error *)
 Theorem rstep_never_errors planned layout st o st' res :
   rstep planned layout st o = Some (st', res) -> is_err res = false.
 Proof.
-  destruct o as [pn|pn|probe ping before popped after asp r0]; cbn [rstep]; intros H.
+  destruct o as [pn|pn|probe ping before popped after asp r0|before popped after asp cnt r0]; cbn [rstep]; intros H.
   - destruct (take_pkt pn (rOut st)) as [[fs out']|]; inversion H; reflexivity.
   - destruct (take_pkt pn (rOut st)) as [[fs out']|]; inversion H; reflexivity.
   - destruct (pop_check (rQueue st) popped) as [q'|]; [|discriminate].
     destruct popped; [destruct ping|]; inversion H; reflexivity.
+  - destruct (pop_check (rQueue st) popped) as [q'|]; [|discriminate].
+    destruct popped; inversion H; reflexivity.
 Qed.
+
+(** a spec-driven Initial packet with frames shares its datagram with nothing *)
+Theorem spec_initial_travels_alone frames ping hs :
+  frames <> [] \/ ping = true -> coalesced_count frames ping hs = 1.
+Proof.
+  intros [H| ->].
+  - destruct frames; [contradiction | reflexivity].
+  - destruct frames; reflexivity.
+Qed.
+
+Example legacy_coalesced : legacy_coalesced_count [(0, 300)] false true = 2 /\ coalesced_count [(0, 300)] false true = 1.
+Proof. split; reflexivity. Qed.
 
 (** C02_initial_retx_complete: for EVERY history of losses, acknowledgements and packing calls no
     result is an error and every byte that was outstanding, queued or acknowledged before still is *)
